@@ -18,7 +18,6 @@ open_slice = slice(None)
 bools = frozenset([bool, np.bool_, np.dtype('bool')])
 ndim_max = 3
 
-# TODO: With python 3.10, use strict=True zip kwarg
 sparse_array_imath = """
 def __i{name}__(self, other):
     if other.__class__ is SparseArray:
@@ -35,7 +34,7 @@ def __i{name}__(self, other):
             other = other_rows[0]
             for i in rows: i._i{name}_sparse(other)
         else:
-            for i, j in zip(rows, other_rows): i._i{name}_sparse(j)
+            for i, j in strict_zip(rows, other_rows): i._i{name}_sparse(j)
     elif other.__class__ in SparseVectorSet:
         dtype = self.dtype
         other_dtype = other.dtype
@@ -53,7 +52,7 @@ def __i{name}__(self, other):
             for i in self.rows: i._i{name}_array(other) 
         elif ndim == 2:
             rows = self.rows
-            for i, j in zip(rows, other): i._i{name}_array(j)
+            for i, j in strict_zip(rows, other): i._i{name}_array(j)
         else:
             raise ValueError('shape mismatch between arrays')
     return self
@@ -82,7 +81,7 @@ def __{name}__(self, other):
             )
         else:
             new = SparseArray.from_rows(
-                [i._{name}_sparse(j) for i, j in zip(rows, other_rows)]
+                [i._{name}_sparse(j) for i, j in strict_zip(rows, other_rows)]
             )
     elif other.__class__ in SparseVectorSet:
         dtype = self.dtype
@@ -107,7 +106,7 @@ def __{name}__(self, other):
             ])
         elif ndim == 2:
             new = SparseArray.from_rows(
-                [i._{name}_array(j) for i, j in zip(rows, other)]
+                [i._{name}_array(j) for i, j in strict_zip(rows, other)]
             )
         else:
             new = self.to_array().__{name}__(other)
@@ -328,6 +327,11 @@ def _{name}_array(self, other):
         return self._{name}_array(other)
 
 """
+
+def strict_zip(a, b):
+    if len(a) != len(b) and len(a) != 1 and len(b) != 1: 
+        raise ValueError('shape mismatch between arrays')
+    return zip(a, b)
 
 def default_range(slice, max):
     return range(
@@ -822,7 +826,7 @@ class SparseArray:
                             if vd in (0, 1):
                                 for i in rows: i[:] = value
                             elif vd == 2:
-                                for i, j in zip(rows, value): i[:] = j # TODO: With python 3.10, use strict=True zip kwarg
+                                for i, j in strict_zip(rows, value): i[:] = j
                             else:
                                 raise IndexError(
                                     'cannot set an array element with a sequence'
@@ -848,7 +852,7 @@ class SparseArray:
                     else:
                         for i, j in zip(rows, value): i[n] = j
                 elif vd == 2:
-                    for i, j in zip(rows, value): i[n] = j # TODO: With python 3.10, use strict=True zip kwarg
+                    for i, j in strict_zip(rows, value): i[n] = j
                 else:
                     raise IndexError(
                         'cannot set an array element with a sequence'
@@ -865,7 +869,7 @@ class SparseArray:
                         else:
                             for i in m: rows[i][n] = value
                     elif vd == 2:
-                        for i, j in zip(m, value): rows[i][n] = j # TODO: With python 3.10, use strict=True zip kwarg
+                        for i, j in strict_zip(m, value): rows[i][n] = j
                     else:
                         raise IndexError(
                             f'cannot broadcast {vd}-d array on to 1-d '
@@ -959,7 +963,7 @@ class SparseArray:
             if vd in (0, 1):
                 for i in rows: i[:] = value
             elif vd == 2:
-                for i, j in zip(rows, value): i[:] = j # TODO: With python 3.10, use strict=True zip kwarg
+                for i, j in strict_zip(rows, value): i[:] = j
             else:
                 raise IndexError(
                     'cannot set an array element with a sequence'
